@@ -391,6 +391,25 @@ def real_out(stream, case):
         return "EXC:" + type(e).__name__
 
 
+def eval_oracle(stream, case, r):
+    """the stream's property oracle, with one refinement: when the oracle's own calls into werkzeug
+    raise (innermost frame inside $WZ_REPO/src), the exception is an observation about the
+    implementation on this case, not a harness failure - it is reported as a violation with the
+    case as replay. An exception raised by harness code itself still propagates (exit 2)."""
+    try:
+        return stream.oracle(case, r)
+    except Exception as e:  # noqa: BLE001
+        tb = e.__traceback__
+        last = None
+        while tb is not None:
+            last = tb.tb_frame.f_code.co_filename
+            tb = tb.tb_next
+        src = os.path.join(os.path.realpath(REPO), "src") + os.sep
+        if last and os.path.realpath(last).startswith(src):
+            return f"the implementation raised {type(e).__name__} ({str(e)[:120]}) in {os.path.relpath(os.path.realpath(last), src)} while the property oracle exercised it on this case"
+        raise
+
+
 def run_stream(stream, cases, driver, model_ok, stats):
     """returns (violations, disagreements)"""
     reals = [real_out(stream, c) for c in cases]
@@ -419,7 +438,7 @@ def run_stream(stream, cases, driver, model_ok, stats):
             seen.add(key)
             if stream.nontrivial(c, r):
                 stats["distinct_nontrivial"] = stats.get("distinct_nontrivial", 0) + 1
-        what = stream.oracle(c, r)
+        what = eval_oracle(stream, c, r)
         if what is not None:
             violations.append(Violation(stream.name, c, what, stream.finding_key(c, what)))
         if i in models:
@@ -519,7 +538,7 @@ def main(check: Check, argv):
             for c in cand:
                 searched += 1
                 r = real_out(st, c)
-                what = st.oracle(c, r)
+                what = eval_oracle(st, c, r)
                 if what is not None:
                     k = st.finding_key(c, what)
                     if k not in known:
@@ -549,7 +568,7 @@ def main(check: Check, argv):
             for st in check.streams:
                 if st.name == f.get("stream"):
                     r = real_out(st, f["case"])
-                    still = st.oracle(f["case"], r) is not None
+                    still = eval_oracle(st, f["case"], r) is not None
                     known_replayed += 1
         if still or (still is None and key in known_seen):
             print(f"KNOWN-FINDING: property={prop} {key} {what}", flush=True)
@@ -664,7 +683,7 @@ def shrink(st, v, known, budget=400):
             sz = len(json.dumps(c))
             if sz >= size:
                 continue
-            what = st.oracle(c, real_out(st, c))
+            what = eval_oracle(st, c, real_out(st, c))
             if what is None:
                 continue
             k = st.finding_key(c, what)
@@ -700,7 +719,7 @@ def replay(check, path, log):
             if st.name != sname:
                 continue
             r = real_out(st, case)
-            what = st.oracle(case, r)
+            what = eval_oracle(st, case, r)
             ml = st.model_line(case)
             mo = st.canon_model(case, driver.batch([ml])[0]) if (ml and driver.ok) else None
             log(f"replay {sname}: real={r[:200]} model={None if mo is None else mo[:200]} oracle={what}")
